@@ -14,6 +14,7 @@ import (
 	"path/filepath"
 	"runtime"
 	"sort"
+	"sync/atomic"
 	"time"
 
 	"verif/harness/internal/run"
@@ -27,6 +28,7 @@ type Ctx struct {
 	Workers int
 	Replay  string
 	Repo    string
+	Aux     string // auxiliary input (e.g. the sentences TLC generated from the grammar)
 }
 
 // Meta is what a driver reports about the cases it ran (for the evidence file).
@@ -173,8 +175,23 @@ func css(m Case, k string) []string {
 
 func (c *Ctx) quick() bool { return c.Tier != "thorough" }
 
+// hangs counts runs that did not return even when re-run alone with a long watchdog. Once a few have been
+// confirmed the watchdog is shortened, so that a tree with a hang is reported in minutes instead of timing the check out.
+var hangs atomic.Int64
+
 func (c *Ctx) crd(args []string, stdin []byte) run.Result {
-	return run.Run(c.Bin, run.Cmd{Args: args, Stdin: stdin, Timeout: 10 * time.Second})
+	if hangs.Load() >= 3 {
+		return run.Run(c.Bin, run.Cmd{Args: args, Stdin: stdin, Timeout: 1500 * time.Millisecond})
+	}
+	r := run.Run(c.Bin, run.Cmd{Args: args, Stdin: stdin, Timeout: 10 * time.Second})
+	if r.TimedOut {
+		// confirm alone-ish with a long watchdog before anybody calls it a hang (a loaded machine is not a hang)
+		r = run.Run(c.Bin, run.Cmd{Args: args, Stdin: stdin, Timeout: 40 * time.Second})
+		if r.TimedOut {
+			hangs.Add(1)
+		}
+	}
+	return r
 }
 
 func (c *Ctx) crdEnv(args []string, stdin []byte, env []string, to time.Duration) run.Result {
@@ -245,6 +262,7 @@ func main() {
 	flag.IntVar(&c.Workers, "workers", runtime.NumCPU(), "parallel process runs")
 	flag.StringVar(&c.Replay, "replay", "", "replay file (a failing record); run only its case")
 	flag.StringVar(&c.Repo, "repo", "/repo", "repository root")
+	flag.StringVar(&c.Aux, "aux", "", "auxiliary input file")
 	flag.Parse()
 	if flag.NArg() != 1 {
 		names := []string{}
